@@ -178,8 +178,22 @@ def random_calibration(rng):
     return [pin, conv(mina), conv(maxa), conv(minp), conv(maxp)], (mina, maxa, minp, maxp)
 
 
-def random_case(rng, thorough):
-    if rng.random() < (0.5 if thorough else 0.3):
+# calibrations whose bounds are binary64 values that are NOT short dyadic numbers (the exact value of the float is
+# sent to the model; the float arithmetic of the two maps then differs from the rational one in the last ulp)
+DECIMAL_CALIBS = [(Fr(0.1), Fr(179.9), Fr(544.5), Fr(2400.3)), (Fr(-33.3), Fr(66.6), Fr(1 / 3), Fr(1000.7)),
+                  (Fr(0), Fr(180), Fr(0.7), Fr(0.9))]
+
+
+def as_float_value(q):
+    """the binary64 nearest to q, as an exact Fraction"""
+    return Fr(q.numerator / q.denominator)
+
+
+def random_case(rng, thorough, decimal=False):
+    if decimal:
+        mina, maxa, minp, maxp = rng.choice(DECIMAL_CALIBS)
+        ctor = [ABSENT, mina, maxa, minp, maxp]
+    elif rng.random() < (0.5 if thorough else 0.3):
         ctor, (mina, maxa, minp, maxp) = random_calibration(rng)
     else:
         ctor, (mina, maxa, minp, maxp) = CALIBS[rng.choice(list(CALIBS))]
@@ -197,6 +211,8 @@ def random_case(rng, thorough):
                 v = rng.choice([lo, hi, lo + EPS, hi - EPS, as_int_if_whole(lo), as_int_if_whole(hi)])
             else:
                 v = rng.choice([lo - EPS, hi + EPS, lo - 1, hi + 1000, None, True, False, lo - Fr(1, 1 << 30), hi + Fr(1, 1 << 30)])
+            if decimal and isinstance(v, Fr):
+                v = as_float_value(v)
             ops.append((name, v))
         else:
             ops.append((rng.choice(["read", "read_us"]),))
@@ -227,6 +243,8 @@ def generate(ctx):
                         cases.append(("triples", ("servo", ctor, [a, b, c])))
     for _ in range(8000 if thorough else 700):
         cases.append(("random", random_case(rng, thorough)))
+    for _ in range(3000 if thorough else 300):
+        cases.append(("random-decimal", random_case(rng, thorough, decimal=True)))
     return cases
 
 
@@ -317,7 +335,7 @@ def run_unit(ctx: C.Ctx) -> dict:
         "rule": ("Servo: constructor table (%d rejected, %d accepted with unusual types / narrow ranges, 3 calibrations) + exhaustive op pairs over the "
                  "boundary alphabet (min, max, mid, min-eps, max+eps, +-1 outside, int and float forms, bools, None; both write and write_us; getters) of each of "
                  "3 calibrations (default, negative angles, fractional) from 11 seed states%s + seeded random histories (3-15 ops; 70%% in range, 20%% boundary, "
-                 "10%% invalid; %s random dyadic calibrations). evaluations = method calls executed on the real objects and compared field by field with the "
+                 "10%% invalid; %s random dyadic calibrations; a second stream uses non-dyadic binary64 bounds and angles such as 0.1, 179.9, 1/3). evaluations = method calls executed on the real objects and compared field by field with the "
                  "model; distinct non-trivial = distinct (full state before, call) with a non-getter call that raised, changed state or emitted events."
                  % (len(BAD_CTORS), len(ODD_CTORS), " + triples over a reduced alphabet" if ctx.tier == "thorough" else "",
                     "50%" if ctx.tier == "thorough" else "30%")),
